@@ -73,6 +73,7 @@ package bluemonday
 //@     assert[C04,strict] (s == " " && p.addSpaces) || (token.Type == 1 && s == TokString(token, elems(token.Attr)))
 //@     assert[C08,wellnested] s == " " || gD == 0
 //@     assert[C07,clean] s == TokString(token, elems(token.Attr)) && token.Type == tzCur.Type && token.Data == tzCur.Data && len(token.Attr) == len(tzCur.Attr) && (forall i int :: 0 <= i && i < len(token.Attr) ==> token.Attr[i] == tzCur.Attr[i])
+//@     assert[C01] p.allowUnsafe || emitC01(p, token, s)
 //@   at-call (io.StringWriter).WriteString(w, s) where s from (html.Token).String
 //@     assert[C02] (token.Type == 2 || token.Type == 4) ==> (len(token.Attr) == 0 && bareOK(p, token.Data)) || (len(token.Attr) > 0 && sanEl == token.Data && sanRes == token.Attr)
 //@   before "closingTagToSkipStack = append(closingTagToSkipStack, token.Data)"
